@@ -305,14 +305,18 @@ func (s *Segment) writePtr(off address, src Ptr, forceCopy bool) error {
 			return nil
 		}
 		if forceCopy || src.seg.msg != s.msg || st.flags&isListMember != 0 {
-			newSeg, newAddr, err := alloc(s, st.size.totalSize())
+			// A member of a 1/2/4-byte list has a data section narrower
+			// than a word; a standalone struct is made of whole words.
+			newSize := st.size
+			newSize.DataSize = newSize.DataSize.padToWord()
+			newSeg, newAddr, err := alloc(s, newSize.totalSize())
 			if err != nil {
 				return annotate(err).errorf("write pointer: copy")
 			}
 			dst := Struct{
 				seg:        newSeg,
 				off:        newAddr,
-				size:       st.size,
+				size:       newSize,
 				depthLimit: maxDepth,
 				// clear flags
 			}
